@@ -8,7 +8,7 @@ def p_parts():
     from ._append import p_append
     from ._validate import p_validate
     from ._generic import optional_parts
-    return [p_append, p_validate] + optional_parts(("_parts", "p_parts"), ("_partfiles", "p_partfiles"), ("_makemeta", "p_makemeta"))
+    return [p_append, p_validate] + optional_parts(("_parts", "p_parts"), ("_partfiles", "p_partfiles"), ("_makemeta", "p_makemeta"), ("_pathconv", "p_part_id"))
 
 
 def run(ctx):
